@@ -256,6 +256,12 @@ def check_call(case, rec):
         if case["flag"] & 2 and case["method"] % 3 != 1:
             cv[0] = np.nan  # (ext. drift values must match the finite conditions: not combined)
         cval = A("cond_val", cv)
+        if not (case["flag"] & 2) and case["method"] % 2 == 0 and case["method"] % 3 != 1:
+            # measurements kept as a float64 masked array (an outlier hidden under the mask): data and mask stay as they are
+            mk_ = np.zeros(n, dtype=bool)
+            mk_[n // 2] = True
+            raw_ = sn.add("cond_raw", np.array(cv, dtype=np.double))
+            cval = sn.add("cond_val_masked", np.ma.masked_array(raw_, mask=mk_))
         kw = dict(mean=_mt(case["mean"], dim) if case["mean"] != "none" else None, trend=trend, normalizer=norm)
         variant = case["method"] % 3
         tpos = A("pos", rs.uniform(-3, 3, (dim, 5)))
